@@ -271,7 +271,11 @@ static ssize_t io_rw(int fd, int wr, long n)
 {
 	char buf[4096];
 	ssize_t tot = 0;
+	int fl = fcntl(fd, F_GETFL);
 
+	/* the harness never blocks; the descriptor's own mode is restored */
+	if (fl >= 0 && !(fl & O_NONBLOCK))
+		fcntl(fd, F_SETFL, fl | O_NONBLOCK);
 	memset(buf, 'x', sizeof buf);
 	while (n > 0) {
 		size_t c = n > (long)sizeof buf ? sizeof buf : (size_t)n;
@@ -281,8 +285,12 @@ static ssize_t io_rw(int fd, int wr, long n)
 		tot += r;
 		n -= r;
 	}
+	if (fl >= 0 && !(fl & O_NONBLOCK))
+		fcntl(fd, F_SETFL, fl);
 	return tot;
 }
+
+static int do_env(struct op *p);
 
 static void do_op(struct op *p)
 {
@@ -302,9 +310,11 @@ static void do_op(struct op *p)
 		fd->handler_in = fdhtab[1][hid_of(id, p->a[1])];
 		fd->handler_out = fdhtab[2][hid_of(id, p->a[2])];
 		fd->handler_err = fdhtab[3][hid_of(id, p->a[3])];
-		if (!strcmp(n, "fd_try"))
+		if (!strcmp(n, "fd_try")) {
+			simk_in_probe = 1;
 			r = iv_fd_register_try(fd);
-		else
+			simk_in_probe = 0;
+		} else
 			iv_fd_register(fd);
 		if (r == 0)
 			o->reg = 1;
@@ -463,7 +473,7 @@ static void do_op(struct op *p)
 		simk_advance((ns_t)p->a[0] * NSEC + p->a[1]);
 		iv_invalidate_now();
 		alog("invalidate", 0, 0, 0, 0, vnow, 0);
-	} else {
+	} else if (!do_env(p)) {
 		skip(n, -1);
 	}
 out:
@@ -522,6 +532,8 @@ static void run_ops(char ctx, int kind, int id, int band, int occ, int q)
 	}
 }
 
+static int wound_down, last_env_q;
+
 static int env_at_quiescence(int q)
 {
 	int n = 0;
@@ -529,6 +541,27 @@ static int env_at_quiescence(int q)
 	for (int i = 0; i < nops; i++)
 		if (ops[i].ctx == 'E' && ops[i].q == q)
 			n += do_env(&ops[i]);
+	return n;
+}
+
+/* nothing can happen any more: hang up every peer once, which makes every
+ * still-registered descriptor ready and lets the script wind down */
+static int env_at_hang(void)
+{
+	int n = 0;
+
+	if (wound_down)
+		return 0;
+	wound_down = 1;
+	for (int i = 1; i <= MAXO; i++) {
+		struct obj *o = &O[K_FD][i];
+		if (o->declared && o->peer >= 0) {
+			__real_close(o->peer);
+			o->peer = -1;
+			tr("\"e\":\"Env\",\"op\":\"pclose\",\"o\":%d,\"n\":0,\"now\":[%lld,%lld]}", i, TS(vnow));
+			n++;
+		}
+	}
 	return n;
 }
 
@@ -561,10 +594,12 @@ static void exclude_for(const char *m)
 static void run_script(void)
 {
 	simk_init(seed);
+	simk_wait_limit = maxwait + 40;
 	hooks.truth_json = truth_json;
 	hooks.fid_of_ptr = fid_of_ptr;
 	hooks.fid_of_osfd = fid_of_osfd;
 	hooks.env_at_quiescence = env_at_quiescence;
+	hooks.env_at_hang = env_at_hang;
 	hooks.check_touch = check_touch;
 	hooks.nfid = 0;
 	for (int i = 1; i <= MAXO; i++) {
@@ -616,7 +651,7 @@ static void parse_op(struct op *p, char **tok, int nt)
 int main(int argc, char **argv)
 {
 	FILE *in = stdin;
-	int outfd = 1, timeout_s = 20;
+	int outfd = 1, timeout_s = 3, ntimeouts = 0;
 	char line[512];
 
 	for (int i = 1; i < argc; i++) {
@@ -697,6 +732,13 @@ int main(int argc, char **argv)
 			}
 			break;
 		case 'X': {
+			if (ntimeouts >= 3) {
+				/* the tree under test hangs: do not spend the budget */
+				tr("\"e\":\"Reset\",\"id\":\"%s\",\"m\":\"%s\",\"nf\":0}", script_id, method);
+				tr("\"e\":\"End\",\"why\":\"skipped\",\"sig\":0,\"now\":[0,0]}");
+				tr_flush();
+				break;
+			}
 			pid_t pid = fork();
 			if (pid == 0) {
 				for (int i = 0; i < nops; i++)
@@ -707,7 +749,12 @@ int main(int argc, char **argv)
 				_exit(0);
 			}
 			int st = 0;
+			struct timespec t0, t1;
+			__real_clock_gettime(CLOCK_MONOTONIC, &t0);
 			waitpid(pid, &st, 0);
+			__real_clock_gettime(CLOCK_MONOTONIC, &t1);
+			if (t1.tv_sec - t0.tv_sec >= timeout_s)
+				ntimeouts++;
 			if (WIFSIGNALED(st)) {
 				/* the child could not write its own End record */
 				me = 0;
